@@ -217,6 +217,7 @@ class Engine:
                     r = self.check()
                 finally:
                     s.set("timeout", self.timeout_ms)
+            self.last_witness_status = r
             return s.model() if r == "sat" else None
         finally:
             s.pop()
